@@ -662,6 +662,12 @@ impl PersistenceState {
 
         let old_path = wal_guard.path().to_path_buf();
 
+        // The outgoing segment is never appended to (or synced) again; under the periodic policy
+        // its tail has to reach the disk before the writer is replaced.
+        if matches!(self.fsync_policy, FsyncPolicy::Periodic(_)) {
+            wal_guard.sync()?;
+        }
+
         let new_wal_path = self
             .data_dir
             .join(format!("wal_{}.wal", HnswBackend::file_id()));
